@@ -229,6 +229,41 @@ def _counts(rep, ctx, flows, cg):
                 if feas:
                     mn = min(feas)
         return (mn, mx)
+    # the primitives' counts are not taken on trust: each is recomputed from its own body (base fact: add_particle appends
+    # exactly one) and must equal the table the unit summaries are built on
+    rep.rule('COUNT.primitive', 'each emission primitive appends, over all paths of its own body, exactly the number of particles '
+             'the unit summaries assume for it (gamma/electron/positron/alpha/particle/beta*: one; pair: two; nucltrans*: one or two, ...)')
+    base = {'event::add_particle': (1, 1)}
+    order = ['particle', 'gamma', 'electron', 'positron', 'alpha', 'pair', 'beta', 'beta1', 'beta2', 'beta_1fu',
+             'nucltransk', 'nucltranskl', 'nucltransklm', 'nucltransklm_pb']
+    saved = summ
+    nprim = 0
+    for n in order:
+        if n not in byname:
+            used = any(x.kind == 'call' and x.stmt[1] == n for k in flows for x in flows[k][1].nodes)
+            if used:
+                raise AnalysisBroken('COUNT.primitive: primitive %s is called but not found among the functions on generation paths' % n)
+            continue            # not reached from the dispatcher (nothing relies on its count)
+        got = None
+        for k in byname[n]:
+            fn, g, side = flows[k]
+            if not any(x.kind == 'call' and (x.stmt[1] in base) for x in g.nodes):
+                continue            # the forwarding overload
+            summ = base
+            got = unit_summary(g)
+            summ = saved
+            nprim += 1
+            ok = got is not None and got == tuple(pathsum.COUNT[n])
+            rep.add('COUNT.primitive', n, where(fn), '%s appends %s particle(s) on every path of its body' %
+                    (fn['name'], '%d..%d' % tuple(pathsum.COUNT[n]) if pathsum.COUNT[n][0] != pathsum.COUNT[n][1] else pathsum.COUNT[n][0]),
+                    ok, None if ok else ['computed from the body: %s; assumed by the unit summaries: %s' %
+                                         ('a loop appends particles' if got is None else '%d..%d' % got, '%d..%d' % tuple(pathsum.COUNT[n])),
+                                         'a path of %s returns without appending (or appends twice): a scheme branch that emits only '
+                                         'this particle yields an empty event' % fn['name']])
+        if got is not None:
+            base = dict(base)
+            base[n] = got
+    rep.floor('COUNT.primitive', nprim, 13)
     for _ in range(8):
         progress = False
         for n, ks in list(pending.items()):
